@@ -373,3 +373,38 @@ def limb_quotient_values(rng, sh, n=40):
             if 0 < c <= M:
                 out.append(c)
     return out
+
+
+LIMB_WORDS = (0, 1, 2, (1 << 31) - 1, 1 << 31, (1 << 32) - 1, 1 << 32, (1 << 63) - 1, 1 << 63, (1 << 64) - 2, (1 << 64) - 1)
+
+
+def limb_grid():
+    """All hi * 2^64 + lo with hi, lo from LIMB_WORDS (hi < 2^63): all-ones / single-bit / empty limbs, the operands on
+    which schoolbook limb arithmetic (carry chains, cross products, limb-wise compares) is most likely to slip."""
+    out = []
+    for hi in LIMB_WORDS:
+        if hi >> 63:
+            continue
+        for lo in LIMB_WORDS:
+            c = (hi << 64) | lo
+            if 0 < c <= M:
+                out.append(c)
+    return out
+
+
+def limb_carry_pairs(rng, n=60):
+    """(a, b) with |a|, |b| <= M whose low limbs sum to 2^64 - 1, 2^64 or 2^64 + 1 (carry into the high limb just
+    happens / just does not), or whose low limbs are ordered against their high limbs (hi_a < hi_b, lo_a > lo_b)."""
+    out = []
+    for _ in range(n):
+        ha, hb = rng.getrandbits(rng.randrange(1, 62)), rng.getrandbits(rng.randrange(1, 62))
+        la = rng.getrandbits(64)
+        for d in (-1, 0, 1):
+            lb = ((1 << 64) - la + d) & ((1 << 64) - 1)
+            out.append(((ha << 64) | la, (hb << 64) | lb))
+        # borrow: equal / adjacent high limbs, low limbs in the opposite order
+        lo1, lo2 = sorted((rng.getrandbits(64), rng.getrandbits(64)))
+        out.append(((ha << 64) | lo2, ((ha + 1) << 64) | lo1))
+        out.append(((ha << 64) | lo1, (ha << 64) | lo2))
+        out.append((((ha + 1) << 64), (ha << 64) | ((1 << 64) - 1)))
+    return out
